@@ -247,3 +247,62 @@ def inconsistent_edges(g, call_pat, enumerators, value):
         for (b, lab) in enum_edges(g, call_pat, e):
             avoid.append((b, other(lab)) if e == value else (b, lab))
     return avoid
+
+
+def eq_kind(cond):
+    """'==' / '!=' when cond is an equality test (built-in or an overloaded operator==/!=, negations folded in), with the two sides:
+    (op, lhs, rhs); None otherwise"""
+    c, neg = core_and_neg(cond)
+    c = strip(c, casts=True)
+    op, sides = None, None
+    if isnode(c) and c["k"] == "BinaryOperator" and c["op"] in ("==", "!="):
+        op, sides = c["op"], (c["lhs"], c["rhs"])
+    elif isnode(c) and c["k"] == "CXXOperatorCallExpr" and len(c.get("args") or []) == 2:
+        cal = short(c.get("callee") or "")
+        if cal.endswith("operator=="):
+            op, sides = "==", (c["args"][0], c["args"][1])
+        elif cal.endswith("operator!="):
+            op, sides = "!=", (c["args"][0], c["args"][1])
+    if op is None:
+        return None
+    if neg:
+        op = "!=" if op == "==" else "=="
+    return (op, sides[0], sides[1])
+
+
+def forwards(ctx, facts, cfg, rule, caller, callee_pat, what, param_idx=None, floor=1, obj_field=None):
+    """a thin API function hands its work on: `caller` calls a function matching callee_pat on every path to its end (optionally with its
+    own parameter #param_idx as an argument, optionally on the member obj_field)"""
+    fs = facts.need(caller, cfg, floor=floor)
+    for f in fs[:4]:
+        g = f.g
+        cs = f.calls(callee_pat)
+        if obj_field is not None:
+            cs = [c for c in cs if any(x["k"] == "MemberExpr" and x.get("mname") == obj_field for x in walk(call_obj(c)))]
+        pos = [p for c in cs for p in g.positions(c)]
+        thr = [q for x in f.walk() if x["k"] == "CXXThrowExpr" for q in g.positions(x)]
+        ok = bool(pos) and not g.exists_path([g.entry_node], [g.exit_node], avoid_nodes=pos + thr)
+        if ok and param_idx is not None:
+            pd = f.rec["params"][param_idx]["did"]
+            ok = all(any(var_ref(x) == pd for a in c["args"] for x in walk(a)) for c in cs)
+        ctx.ob(rule, "%s:forwards" % f.name.replace("quill::detail::", "").replace("quill::", ""), ok, what, fn=f)
+
+
+def rel_kind(cond_leaf):
+    """(op, lhs, rhs) for a built-in or overloaded relational / equality test (negations folded in); None otherwise"""
+    import re
+    from qlib import CMP_NEG
+    c, neg = core_and_neg(cond_leaf)
+    c = strip(c, casts=True)
+    op, l, r = None, None, None
+    if isnode(c) and c["k"] == "BinaryOperator" and c["op"] in ("<", "<=", ">", ">=", "==", "!="):
+        op, l, r = c["op"], c["lhs"], c["rhs"]
+    elif isnode(c) and c["k"] == "CXXOperatorCallExpr" and len(c.get("args") or []) == 2:
+        m = re.search(r"::operator(<=|>=|==|!=|<|>)(?:<.*>)?$", c.get("callee") or "")   # (short() cannot be used on operator< / operator>)
+        if m:
+            op, l, r = m.group(1), c["args"][0], c["args"][1]
+    if op is None:
+        return None
+    if neg:
+        op = CMP_NEG[op]
+    return op, l, r
